@@ -3,6 +3,8 @@ import subprocess, time, os, select
 
 
 class Session:
+    retry_budget = 8
+
     def __init__(self, kind='z3', timeout_s=60, logic=None, log=None, tactic='qfnra'):
         self.tactic = tactic
         self.kind = kind
@@ -87,7 +89,8 @@ class Session:
         """one query; an `unknown` / time-out (never an error) is retried ONCE in a fresh solver process with five times the time limit:
         the limits are wall-clock, and a loaded machine can push a sub-second query over a one-minute limit"""
         ans, dt, model = self._check_once(assertions, want_model, model_vars)
-        if ans == 'unknown' and not getattr(self, '_retrying', False):
+        if ans == 'unknown' and not getattr(self, '_retrying', False) and Session.retry_budget > 0:
+            Session.retry_budget -= 1      # (per process: a tree on which MANY queries time out is not made 6 times slower)
             self._retrying = True
             old = self.timeout_s
             try:
